@@ -668,10 +668,243 @@ EmitWrap ==
                                     args |-> IF pb.wrapper = "LS" THEN LsArgMap ELSE [none |-> "none"]]) \o " @@END")
 
 (***************************************************************************)
+(* kind "seq": ONE solver object, a sequence of public operations          *)
+(*                                                                         *)
+(*   pb.fam : the class (cgls, pcgls, fista, lm, L_BFGS_B, minimize,        *)
+(*            maximize, LS);  pb.ops : the operands it is constructed with  *)
+(*            (record; the field names are the public attribute names).     *)
+(*   it.ops : the operands the object holds now;                            *)
+(*   it.cache : derived data kept between calls: {} or {A^T b}              *)
+(*            (back-projected data of the linear solvers).                  *)
+(*   Solve : runs the solver on it.ops (using / filling the cache) and      *)
+(*            appends the set of admissible end points ({} = not specified: *)
+(*            too few iterations allowed / loose tolerance);                *)
+(*   SetOp : reassigns ONE public operand to another value of its pool and  *)
+(*            clears the cache when the operand enters it.                  *)
+(*   A behaviour has SeqLen operations, at most SeqSets of them SetOp, the  *)
+(*   last one a Solve.                                                      *)
+(***************************************************************************)
+SqAs   == { <<<<1, 0>>, <<1, 1>>>>, <<<<1, -1>>, <<0, 1>>>>, <<<<0, 1>>, <<-1, 1>>>> }
+TallAs == { <<<<1, 0>>, <<0, 1>>, <<1, 1>>>>, <<<<1, -1>>, <<2, 1>>, <<0, 1>>>> }
+SeqCgBig == 8          \* iterations that are enough for n = 2
+SeqCgTight == 10       \* tol = 10^-10 (an operand "tol" is the exponent)
+SeqItBig == 20000      \* fista / lm: "enough" iterations
+
+FistaAs == { <<<<1, 0>>, <<0, 1>>>>, <<<<1, 1>>, <<0, 1>>>>, <<<<0, -1>>, <<1, 1>>>>, <<<<1, -1>>, <<1, 0>>>> }
+FistaBs == { <<2, -1>>, <<-1, 2>>, <<0, 2>>, <<-2, -1>> }
+FistaRegs == { Rg("l1", One, "none", Zero, Zero, <<>>, <<>>), Rg("nonneg", Zero, "none", Zero, Zero, <<>>, <<>>),
+               Rg("box", Zero, "scalar", Zero, One, <<>>, <<>>), Rg("box", Zero, "scalar", QNeg(One), Two, <<>>, <<>>),
+               Rg("box", Zero, "scalar", NInf, One, <<>>, <<>>), Rg("box", Zero, "scalar", NInf, PInf, <<>>, <<>>) }
+FistaX0s == { <<3, -2>>, <<0, 0>>, <<-3, 2>> }
+Third == Q(1, 3)
+Sixth == Q(1, 6)
+
+LinRec(B, c) == [fam |-> "lin", B |-> B, c |-> c, a |-> 0, d |-> 0]
+LmSeqStarts == { LmStarts[1], LmStarts[8], LmStarts[18] }
+
+SeqFn1 == [obj |-> "quad", a |-> <<1, 2>>, c |-> <<1, -2>>]
+SeqFn2 == [obj |-> "quad", a |-> <<1, 2>>, c |-> <<0, 3>>]
+SeqFn3 == [obj |-> "para", a |-> <<-1, 1>>, c |-> <<-1, 1>>]
+
+SeqBase(fam, ops) == [kind |-> "seq", fam |-> fam, ops |-> ops]
+SeqBases ==
+    { SeqBase("cgls", [A |-> <<<<1, 0>>, <<1, 1>>>>, b |-> <<2, -1>>, x0 |-> <<0, 0>>, shift |-> 0, maxit |-> SeqCgBig, tol |-> SeqCgTight]),
+      SeqBase("cgls", [A |-> <<<<1, -1>>, <<2, 1>>, <<0, 1>>>>, b |-> <<-1, 2, 1>>, x0 |-> <<1, -1>>, shift |-> 1, maxit |-> SeqCgBig, tol |-> SeqCgTight]),
+      SeqBase("cgls", [A |-> <<<<1, -1>>, <<0, 1>>>>, b |-> <<-1, 2>>, x0 |-> <<1, -1>>, shift |-> 1, maxit |-> 1, tol |-> 1]),
+      SeqBase("pcgls", [A |-> <<<<1, 0>>, <<1, 1>>>>, b |-> <<2, -1>>, x0 |-> <<0, 0>>, P |-> <<<<1, 0>>, <<1, 1>>>>, shift |-> 0, maxit |-> SeqCgBig, tol |-> SeqCgTight]),
+      SeqBase("pcgls", [A |-> <<<<1, -1>>, <<2, 1>>, <<0, 1>>>>, b |-> <<-1, 2, 1>>, x0 |-> <<1, -1>>, P |-> <<<<1, -2>>, <<0, 1>>>>, shift |-> 1, maxit |-> SeqCgBig, tol |-> SeqCgTight]),
+      SeqBase("fista", [A |-> <<<<1, 1>>, <<0, 1>>>>, b |-> <<2, -1>>, x0 |-> <<3, -2>>, proximal |-> Rg("l1", One, "none", Zero, Zero, <<>>, <<>>),
+                        stepsize |-> Third, adaptive |-> FALSE, maxit |-> SeqItBig]),
+      SeqBase("fista", [A |-> <<<<0, -1>>, <<1, 1>>>>, b |-> <<0, 2>>, x0 |-> <<0, 0>>, proximal |-> Rg("box", Zero, "scalar", QNeg(One), Two, <<>>, <<>>),
+                        stepsize |-> Sixth, adaptive |-> TRUE, maxit |-> SeqItBig]),
+      SeqBase("fista", [A |-> <<<<1, -1>>, <<1, 0>>>>, b |-> <<-1, 2>>, x0 |-> <<-3, 2>>, proximal |-> Rg("nonneg", Zero, "none", Zero, Zero, <<>>, <<>>),
+                        stepsize |-> Third, adaptive |-> FALSE, maxit |-> 1]),
+      SeqBase("lm", [A |-> LinRec(<<<<1, -1>>, <<2, 1>>, <<0, 1>>>>, <<-1, 2, 3>>), x0 |-> LmStarts[8], maxit |-> SeqItBig]),
+      SeqBase("lm", [A |-> [fam |-> "para", B |-> <<>>, c |-> <<>>, a |-> 2, d |-> 1], x0 |-> LmStarts[1], maxit |-> 1]),
+      SeqBase("L_BFGS_B", [func |-> SeqFn1, x0 |-> <<0, 0>>, gradfunc |-> FALSE, kwargs |-> "tight"]),
+      SeqBase("L_BFGS_B", [func |-> SeqFn3, x0 |-> <<0, 0>>, gradfunc |-> TRUE, kwargs |-> "factr3"]),
+      SeqBase("minimize", [func |-> SeqFn1, x0 |-> <<2, 1>>, gradfunc |-> FALSE, method |-> "default", kwargs |-> "default"]),
+      SeqBase("minimize", [func |-> SeqFn2, x0 |-> <<0, 0>>, gradfunc |-> TRUE, method |-> "L-BFGS-B", kwargs |-> "maxiter"]),
+      SeqBase("maximize", [func |-> SeqFn1, x0 |-> <<2, 1>>, gradfunc |-> TRUE, method |-> "default", kwargs |-> "default"]),
+      SeqBase("LS", [func |-> SeqFn1, x0 |-> <<0, 0>>, jacfun |-> TRUE, method |-> "trf", opt |-> "tight"]),
+      SeqBase("LS", [func |-> SeqFn2, x0 |-> <<2, 1>>, jacfun |-> FALSE, method |-> "lm", opt |-> "few"]) }
+
+\* the public operands that can be reassigned (PCGLS keeps all of them in private attributes: Solve only)
+SeqFields(fam) ==
+    CASE fam = "cgls"     -> {"A", "b", "x0", "shift", "maxit", "tol"}
+      [] fam = "pcgls"    -> {}
+      [] fam = "fista"    -> {"A", "b", "x0", "proximal", "stepsize", "adaptive", "maxit"}
+      [] fam = "lm"       -> {"A", "x0", "maxit"}
+      [] fam = "L_BFGS_B" -> {"func", "x0", "gradfunc", "kwargs"}
+      [] fam = "minimize" -> {"func", "x0", "gradfunc", "method", "kwargs"}
+      [] fam = "maximize" -> {"x0", "method", "kwargs"}          \* func / gradfunc hold the NEGATED callables: not reassigned
+      [] fam = "LS"       -> {"func", "x0", "jacfun", "method", "opt"}
+
+IsWrapFam(fam) == fam \in {"L_BFGS_B", "minimize", "maximize", "LS"}
+
+\* the values operand f may be reassigned to (shapes are kept: a new A has the shape of the old one)
+SeqPool(fam, o, f) ==
+    CASE fam = "cgls" ->
+            (CASE f = "A"     -> IF Len(o.A) = 2 THEN SqAs ELSE TallAs
+               [] f = "b"     -> IF Len(o.A) = 2 THEN {<<2, -1>>, <<-1, 2>>} ELSE {<<2, -1, 0>>, <<-1, 2, 1>>}
+               [] f = "x0"    -> {<<0, 0>>, <<1, -1>>}
+               [] f = "shift" -> {0, 1}
+               [] f = "maxit" -> {1, SeqCgBig}
+               [] f = "tol"   -> {1, SeqCgTight})
+      [] fam = "fista" ->
+            (CASE f = "A"        -> FistaAs
+               [] f = "b"        -> FistaBs
+               [] f = "x0"       -> FistaX0s
+               [] f = "proximal" -> FistaRegs
+               [] f = "stepsize" -> {Third, Sixth}
+               [] f = "adaptive" -> BOOLEAN
+               [] f = "maxit"    -> {1, SeqItBig})
+      [] fam = "lm" ->
+            (CASE f = "A"     -> IF o.A.fam = "lin" THEN { LinRec(o.A.B, c) : c \in {<<-1, 2, 3>>, <<3, 2, 3>>, <<0, 1, -2>>} } ELSE {o.A}
+               [] f = "x0"    -> LmSeqStarts
+               [] f = "maxit" -> {1, SeqItBig})
+      [] IsWrapFam(fam) ->
+            (CASE f = "func"     -> IF fam = "LS" THEN {SeqFn1, SeqFn2} ELSE {SeqFn1, SeqFn2, SeqFn3}
+               [] f = "x0"       -> {<<0, 0>>, <<2, 1>>}
+               [] f \in {"gradfunc", "jacfun"} -> BOOLEAN
+               [] f = "method"   -> IF fam = "LS" THEN MethodsOf("LS") ELSE {"default", "L-BFGS-B", "BFGS", "Nelder-Mead"}
+               [] f = "kwargs"   -> IF fam = "L_BFGS_B" THEN {"tight", "default", "factr1", "factr12", "maxiter2", "bounds"}
+                                    ELSE {"default", "tol", "maxiter"}
+               [] f = "opt"      -> {"tight", "loose", "few", "huber"})
+
+\* ---- what Solve returns ---------------------------------------------------------------------------------
+\* back-projected data A^T b of the linear solvers ({} for the others)
+SeqBackProj(fam, o) == IF fam \in {"cgls", "pcgls", "fista"} THEN { QMV(MT(MR(o.A)), VR(o.b)) } ELSE {}
+
+\* fixed points on the lattice of  x -> prox_{t h}(x - t (A^T A x - c))   (c = A^T b for the operands themselves)
+FistaFix(o, c) ==
+    LET A == MR(o.A)  G == F(QMM(MT(A), A))  t == o.stepsize
+    IN { x \in Lat2(-3, 3) : ProxH(o.proximal, QVSub(x, QVScale(t, QVSub(QMV(G, x), c))), t) = x }
+
+\* is the end point of a Solve on these operands specified?  (conjugate gradients: at least n = 2 iterations and a
+\* tight tolerance; fista / lm: enough iterations; the wrappers return whatever SciPy returns: the relation is
+\* always specified, expected point = the optimum of the objective)
+SeqSpecified(fam, o) ==
+    CASE fam \in {"cgls", "pcgls"} -> o.maxit >= 2 /\ o.tol >= 8
+      [] fam \in {"fista", "lm"}   -> o.maxit = SeqItBig
+      [] OTHER -> TRUE
+
+\* admissible end points of a run that uses the back-projected data cc (a set with one vector, or {})
+SeqSolveWith(fam, o, cc) ==
+    CASE fam \in {"cgls", "pcgls"} ->
+            LET A == MR(o.A) IN
+            { QSolve(QMAdd(QMM(MT(A), A), QMScale(R(o.shift), MId(2))), c) : c \in cc }        \* full column rank: unique
+      [] fam = "fista" -> UNION { FistaFix(o, c) : c \in cc }
+      [] fam = "lm"    -> LmStat(o.A)
+      [] OTHER         -> { VR(o.func.c) }
+
+SeqExpected(fam, o) == IF SeqSpecified(fam, o) THEN SeqSolveWith(fam, o, SeqBackProj(fam, o)) ELSE {}
+
+\* operands a SetOp may produce: a proximal-gradient problem keeps a lattice solution and a step below 1/L;
+\* a new objective keeps the derivative the object holds valid (gradfunc: only without one; LS: same Jacobian)
+SeqAdmissible(fam, f, o, o2) ==
+    CASE fam = "fista" -> /\ RLe(QMul(o2.stepsize, FrobSq(MR(o2.A))), One)
+                          /\ FistaFix(o2, CHOOSE c \in SeqBackProj(fam, o2) : TRUE) # {}
+      [] fam \in {"L_BFGS_B", "minimize"} -> (f = "func" => ~o.gradfunc)
+      [] fam = "LS" -> (f = "func" => o2.func.a = o.func.a /\ o2.func.obj = o.func.obj)
+      [] OTHER -> TRUE
+
+NSets(h) == Cardinality({ i \in 1..Len(h) : h[i].act = "set" })
+SeqG0(fam, o) == IF fam = "lm" THEN LmGrad(o.A, o.x0) ELSE <<>>
+
+SeqStart(p) == /\ it' = [ops |-> p.ops, cache |-> {}]
+               /\ hist' = <<>>
+
+Solve ==
+    /\ Run("seq")
+    /\ Len(hist) < SeqLen
+    /\ LET o  == it.ops
+           cc == IF it.cache # {} THEN it.cache ELSE SeqBackProj(pb.fam, o)
+           e  == IF SeqSpecified(pb.fam, o) THEN SeqSolveWith(pb.fam, o, cc) ELSE {}
+       IN /\ it' = [it EXCEPT !.cache = cc]
+          /\ hist' = Append(hist, [act |-> "solve", field |-> "", ops |-> o, exp |-> e, g0 |-> SeqG0(pb.fam, o)])
+    /\ UNCHANGED <<pb, ph>>
+
+SetOp ==
+    /\ Run("seq")
+    /\ Len(hist) < SeqLen - 1
+    /\ NSets(hist) < SeqSets
+    /\ \E f \in SeqFields(pb.fam) : \E v \in SeqPool(pb.fam, it.ops, f) :
+          /\ v # it.ops[f]
+          /\ LET o2 == [it.ops EXCEPT ![f] = v] IN
+             /\ SeqAdmissible(pb.fam, f, it.ops, o2)
+             \* the cache holds A^T b: a new b clears it, and so does a new A (unless the deviation is on)
+             /\ it' = [ops |-> o2, cache |-> IF f = "b" \/ (f = "A" /\ ~StaleCachedOperand) THEN {} ELSE it.cache]
+             /\ hist' = Append(hist, [act |-> "set", field |-> f, ops |-> o2, exp |-> {}, g0 |-> <<>>])
+    /\ UNCHANGED <<pb, ph>>
+
+\* ---- invariants -------------------------------------------------------------------------------------------
+SeqSolves == { i \in 1..Len(hist) : hist[i].act = "solve" }
+
+\* the end point expected from a Solve depends only on the operands the object holds at that moment
+SeqCurrentOperands ==
+    Run("seq") => \A i \in SeqSolves : hist[i].exp = SeqExpected(pb.fam, hist[i].ops)
+
+\* ... and satisfies the optimality system of these operands, stated without the solution operators
+SeqOptimal(fam, o, x) ==
+    CASE fam \in {"cgls", "pcgls"} ->
+            LET A == MR(o.A)  AT == MT(A)
+            IN QMV(QMAdd(QMM(AT, A), QMScale(R(o.shift), MId(2))), x) = QMV(AT, VR(o.b))
+      [] fam = "fista" ->
+            LET A == MR(o.A)  grad == QMV(MT(A), QVSub(QMV(A, x), VR(o.b)))
+            IN /\ RLe(QMul(o.stepsize, FrobSq(A)), One)
+               /\ InDom(o.proximal, x)
+               /\ \A t \in {o.stepsize, One, R(3)} : ProxH(o.proximal, QVSub(x, QVScale(t, grad)), t) = x
+               /\ \A d \in Lat2(-1, 1) : LET z == QVAdd(x, d) IN
+                     (d # <<Zero, Zero>> /\ InDom(o.proximal, z)) =>
+                         RLt(Objective(A, VR(o.b), o.proximal, x), Objective(A, VR(o.b), o.proximal, z))
+      [] fam = "lm" -> LmGrad(o.A, x) = <<Zero, Zero>>
+      [] OTHER -> /\ ObjGrad(o.func, x) = <<Zero, Zero>>
+                  /\ \A z \in ILat2(-3, 3) : RLe(ObjF(o.func, x), ObjF(o.func, z))
+
+SeqOptimality ==
+    Run("seq") => \A i \in SeqSolves :
+        LET o == hist[i].ops  e == hist[i].exp IN
+        /\ (SeqSpecified(pb.fam, o) => e # {})
+        /\ (pb.fam # "lm" => Cardinality(e) <= 1)
+        /\ \A x \in e : SeqOptimal(pb.fam, o, x)
+
+\* the closed form used for the conjugate-gradient families is the solution operator of kind "cg"
+SeqCgAgrees ==
+    (Run("seq") /\ pb.fam \in {"cgls", "pcgls"}) => \A i \in SeqSolves :
+        LET o == hist[i].ops IN
+        SeqSpecified(pb.fam, o) =>
+            hist[i].exp = { CgSolution([solver |-> pb.fam, m |-> Len(o.A), n |-> 2, A |-> o.A, b |-> o.b, x0 |-> o.x0, shift |-> o.shift,
+                                        P |-> IF pb.fam = "pcgls" THEN o.P ELSE <<>>]) }
+
+\* shape of a behaviour: at most SeqSets reassignments, the last operation is a Solve
+SeqShape ==
+    Run("seq") => /\ Len(hist) <= SeqLen /\ NSets(hist) <= SeqSets
+                  /\ (Len(hist) = SeqLen => hist[SeqLen].act = "solve")
+
+\* JSON form of the operands: extended-real bounds as "Inf" / "-Inf", keyword tables by name AND content
+RegJson(rg) == [h |-> rg.h, lam |-> rg.lam, bform |-> rg.bform, lo |-> [i \in 1..2 |-> Ext(LoAt(rg, i))], up |-> [i \in 1..2 |-> Ext(UpAt(rg, i))]]
+SeqOpsJson(fam, o) ==
+    CASE fam = "fista" -> [o EXCEPT !.proximal = RegJson(@)]
+      [] fam \in {"L_BFGS_B", "minimize", "maximize"} -> [o EXCEPT !.kwargs = [name |-> @, kw |-> OptTable(fam)[@]]]
+      [] fam = "LS" -> [o EXCEPT !.opt = [name |-> @, kw |-> LsOpts[@]]]
+      [] OTHER -> o
+
+EmitSeq ==
+    (Emit /\ Run("seq") /\ Len(hist) = SeqLen) =>
+        PrintT("@@CASE " \o ToJson([kind |-> "seq", fam |-> pb.fam, ops |-> SeqOpsJson(pb.fam, pb.ops),
+                                    sense |-> IF pb.fam = "maximize" THEN -1 ELSE 1,
+                                    info |-> IF IsWrapFam(pb.fam) THEN InfoMap(pb.fam) ELSE [none |-> "none"],
+                                    events |-> [i \in 1..Len(hist) |->
+                                                  [act |-> hist[i].act, field |-> hist[i].field, ops |-> SeqOpsJson(pb.fam, hist[i].ops),
+                                                   exp |-> hist[i].exp, g0 |-> hist[i].g0]]]) \o " @@END")
+
+(***************************************************************************)
 AllProblems ==
     (IF "cg" \in Kinds THEN CgAll ELSE {}) \cup (IF "prox" \in Kinds THEN ProxCases ELSE {})
     \cup (IF "kkt" \in Kinds THEN KktAll ELSE {}) \cup (IF "lm" \in Kinds THEN LmProblems ELSE {})
-    \cup (IF "wrap" \in Kinds THEN {k \in WrapCases : WrapValid(k)} ELSE {})
+    \cup (IF "wrap" \in Kinds THEN WrapCases ELSE {})
+    \cup (IF "seq" \in Kinds THEN SeqBases ELSE {})
 
 \* Init only chooses the problem; everything is computed by Start (TLC evaluates Init on one thread only)
 Init == pb \in AllProblems /\ ph = "new" /\ it = <<>> /\ hist = <<>>
@@ -679,9 +912,9 @@ Init == pb \in AllProblems /\ ph = "new" /\ it = <<>> /\ hist = <<>>
 Start ==
     /\ ph = "new"
     /\ ph' = "run"
-    /\ IF pb.kind = "cg" THEN CgInit(pb) ELSE UNCHANGED <<it, hist>>
+    /\ IF pb.kind = "cg" THEN CgInit(pb) ELSE IF pb.kind = "seq" THEN SeqStart(pb) ELSE UNCHANGED <<it, hist>>
     /\ UNCHANGED pb
 
-Next == Start \/ Iterate
+Next == Start \/ Iterate \/ Solve \/ SetOp
 Spec == Init /\ [][Next]_vars
 =============================================================================
